@@ -1498,7 +1498,12 @@ class Node:
             "data": str(self.data),
         }
         # Add custom data_id if not calculated to the hash by default.
-        if self._data_id != hash(self._data):
+        # (Unhashable data objects always have a custom data_id.)
+        try:
+            is_default = self._data_id == hash(self._data)
+        except TypeError:
+            is_default = False
+        if not is_default:
             res["data_id"] = self._data_id
         res = call_mapper(mapper, self, res)
         # if mapper:
